@@ -436,7 +436,7 @@ def check_rmw(ctx):
 
 
 # ------------------------------------------------------------------ commit
-def check_commit(ctx):
+def check_commit(ctx, confirm=None):
     pat = r'^tx::write_tx::<impl>::commit$'
     ob = ctx.ob('commit/final', 'BaseTransaction::commit: one batch with the transaction\'s durability; per keyspace the newest entry of every key (first of each run of equal keys), unchanged, '
                 'whatever the other keyspaces of the transaction contain; no writes -> no batch', [BASE + 'commit'])
@@ -601,7 +601,7 @@ def check_commit(ctx):
         d = b.fields[bn.index('durability')].val if bn.index('durability') in b.fields else None
         if not isinstance(d, EnumV) or str(d.disc) != str(env['dur'].disc):
             bad.append((p, 'the batch does not carry the transaction\'s durability'))
-    finish(ctx, ob, bad, 'tx.commit/not-final-write-per-key')
+    finish(ctx, ob, bad, 'tx.commit/not-final-write-per-key', confirm)
 
 
 def check_rollback_and_wrappers(ctx):
